@@ -11,11 +11,14 @@ def spec(tier, seed):
         jobs += [Job("h263", "c11_dequant_2_events", 1800, group="dequant"),
                  Job("h263", "c11_dequant_3_events", 3000, group="dequant"),
                  Job("h263", "c11_twin_must_fail", 600, expect="fail", group="twin")]
+    from vf import core_scenarios as cs
+    dgen, djobs = cs.dquant_jobs(tier, seed)
+    jobs += djobs
     return {
-        "jobs": jobs, "generated": {},
+        "jobs": jobs, "generated": {"h263/src/decoder/state.rs": dgen},
         "functions": FUNCS, "stubs": [],
         "rule": "inverse_rle on a block with optional INTRADC and N run/level events, all of quantizer 1..31, level -1024..1023 \\ {0} (superset of every codable level in the 7/8/11-bit forms), run 0..63, block position and the checked coefficient cell symbolic; oracle sign(L)(Q(2|L|+1)-[Q even]) saturated, placed by the Figure 14 zig-zag table; INTRADC for all 256 codes",
         "bounds": ["events per block: 1 (quick), 1..3 (thorough)", "unwind = events + 2 with unwinding assertions"],
-        "outside": ["more than 3 events per block (same loop body)", "escape-form level widths and the DQUANT update are decided by the parser / decoder-core harnesses (see DESIGN.md)"],
+        "outside": ["more than 3 events per block (same loop body)", "escape-form level widths: parser block harnesses (C01 parser layer, [C11]-tagged)", "DQUANT: only 'the quantizer in force stays in 1..31 for every DQUANT on every +Q macroblock type' is decided (decoder-core scenarios), not the exact value Q+d"],
         "assumptions": ["zig-zag table and Table 15 transcribed from H.263 (01/2005)"],
     }
